@@ -166,7 +166,7 @@ pub fn minimise(harness: HarnessFn, prop: Prop, tier: Tier, found: &Found, budge
             }
         }
     }
-    if plan["sched"].as_str() == Some("pct") {
+    if plan["sched"].as_str() != Some("random") {
         let mut cand = plan.clone();
         cand["sched"] = Value::from("random");
         if let Some((h, d, c)) = ctx.try_candidate(&cand, &choices) {
